@@ -157,6 +157,13 @@ fn relate(c: &RrlCfg, s1: IpAddr, k1: &Kind, s2: IpAddr, k2: &Kind) -> Relation 
             text.push_str("(both-synthesised)");
         }
     }
+    if c.slip == 1 && k2.truncated_baseline && expect == Expect::Limited {
+        // The unlimited response is itself "TC, no records": a slipped
+        // response is octet for octet the same, so limiting is not observable
+        // (it is under slip 0, where the response is dropped).
+        text.push_str("(truncated-baseline)");
+        expect = Expect::Either;
+    }
     Relation { expect, text }
 }
 
